@@ -273,6 +273,25 @@ func execClearsignOne(vec J, out *Writer, echo J) {
 			obs["paras"] = parasToJ(handed)
 		}
 	}()
+	// the same bytes through the Decoder into a slice of structs (the typed documents' route)
+	sliceObs := J{"ok": false, "n": 0, "panic": false}
+	func() {
+		defer func() {
+			if r := recover(); r != nil {
+				sliceObs["panic"] = true
+			}
+		}()
+		dec, err := control.NewDecoder(bytes.NewReader(b), ring)
+		if err != nil {
+			return
+		}
+		var into []rawPara
+		if dec.Decode(&into) != nil {
+			return
+		}
+		sliceObs["ok"] = true
+		sliceObs["n"] = len(into)
+	}()
 	hasForeign := func(key string) bool {
 		for _, p := range L(obs[key]) {
 			for _, k := range L(M(p)["order"]) {
@@ -287,7 +306,7 @@ func execClearsignOne(vec J, out *Writer, echo J) {
 		"armor_start": bytes.HasPrefix(b, []byte("-----BEGIN PGP ")),
 		"decodes":     now.decodes, "canon_same": now.decodes && orig.decodes && bytes.Equal(now.canon, orig.canon),
 		"sigpkt_same": now.decodes && orig.decodes && bytes.Equal(now.sigpkt, orig.sigpkt) && len(now.sigpkt) > 0,
-		"len":         len(b), "obs": obs, "foreign_in_all": hasForeign("paras"), "foreign_in_next": hasForeign("next_paras")})
+		"len":         len(b), "obs": obs, "slice": sliceObs, "foreign_in_all": hasForeign("paras"), "foreign_in_next": hasForeign("next_paras")})
 }
 
 func min(a, b int) int {
